@@ -159,6 +159,24 @@ CaseResult run_case(Tape &t, long)
       uint8_t x = 1;
       int wr = reproc_write(ch.p, &x, 1);
       if (wr != REPROC_EPIPE && res.kind == CaseResult::PASS) res.fail("stdin-open-after-input", "after start-up input stdin must be closed in the parent; a write returned " + std::to_string(wr));
+      // start-up input must not change how the output streams behave: an empty,
+      // open stdout/stderr blocks (until the child writes) without the
+      // nonblocking option and reports would-block with it
+      if (res.kind == CaseResult::PASS && k.alive) {
+        uint32_t s = (uint32_t) c.stream;
+        int64_t t0 = w.now, at = t0 + c.later_after;
+        w.schedule(at, ch.kid, vt::A_WRITE, s, 9);
+        std::vector<uint8_t> rb(64);
+        size_t ep0 = w.episodes.size();
+        int rr = reproc_read(ch.p, s == 1 ? REPROC_STREAM_OUT : REPROC_STREAM_ERR, rb.data(), rb.size());
+        if (c.nonblocking) {
+          if (rr != REPROC_EWOULDBLOCK || w.now != t0) res.fail("read-result", "nonblocking read on an empty open stream after start-up input returned " + std::to_string(rr) + " after " + std::to_string(w.now - t0) + " ms");
+        } else if (rr == REPROC_EWOULDBLOCK) {
+          res.fail("would-block-in-blocking-mode", "without the nonblocking option a read on an empty open stream (after start-up input) returned the would-block error instead of waiting for the child");
+        } else if (w.now != at || w.episodes.size() == ep0 || rr < 1 || rr > 9) {
+          res.fail("blocking-read-duration", "blocking read after start-up input returned " + std::to_string(rr) + " at +" + std::to_string(w.now - t0) + " ms; the child writes at +" + std::to_string(at - t0) + " ms");
+        }
+      }
     } else if (ch.start_result < 0) {
       res.cls("input-start-failed");
       // all or nothing: no child left behind, handle not started
